@@ -693,7 +693,7 @@ def solve_all(obligations, budget=10, workers=16, tmpdir=None, portfolio=None):
     st2 = _solve_phase(todo, budget, workers, tmpdir, portfolio or LADDER) if todo else {"solve_wall_s": 0, "queries": 0}
     # phase 3: a handful of obligations that only ran out of (wall-clock) time get one more try with five times the budget - on a loaded machine a query that
     # takes a second can miss a 10 s limit; a verdict must not depend on how busy the cores are
-    late = [ob for ob in todo if ob.status == "undecided" and ob.kind != "canary"]
+    late = [ob for ob in todo if ob.status == "undecided" and ob.kind not in ("canary", "cover", "abort")]  # (a cover query asks for a model: "unknown" there is not a matter of time)
     st3 = {"solve_wall_s": 0, "queries": 0}
     if 0 < len(late) <= 12:
         for ob in late:
